@@ -56,12 +56,14 @@ package services
 //@   callpre (*Limiter).Allow: ip == raddr(conn)
 //@   ensures [amp] isUDP(conn) ==> conn.written - old(conn.written) <= totalgrants - old(totalgrants)
 //@   ensures [one-reader] conn.bufreaders == 1
-//@   ensures [events-per-line] nlines - old(nlines) <= nsends - old(nsends) && nsends - old(nsends) <= (nlines - old(nlines)) + (nlines - old(nlines))
+//@   ensures [event-per-line] nlines - old(nlines) <= nsends - old(nsends)
+//@   ensures [at-most-two-per-line] nsends - old(nsends) <= (nlines - old(nlines)) + (nlines - old(nlines))
 //@   modifies *
 //@   loop 1: invariant isUDP(conn) ==> conn.written - old(conn.written) <= totalgrants - old(totalgrants)
 //@   loop 1: invariant conn.bufreaders == 1
 //@   loop 1: invariant nlines == old(nlines) + loopiter
-//@   loop 1: invariant loopiter <= nsends - old(nsends) && nsends - old(nsends) <= loopiter + loopiter
+//@   loop 1: invariant loopiter <= nsends - old(nsends)
+//@   loop 1: invariant nsends - old(nsends) <= loopiter + loopiter
 //
 //@ func (*counterStrikeService).Handle
 //@   physical limOK(s.limiter) && stored(s.limiter) && 0 <= conn.written && conn.written < 1<<49 && 0 <= totalgrants && totalgrants < 1<<49
